@@ -13,19 +13,21 @@
      C09_roundtrip_refuted   finding D07: initial fluents (g3 b a a) and (g3 a a b) are both exported as (g3 a a b)
                              and come back as ONE fluent
    and was false on the pinned exporter in one more way (C09_pinned_refuted: D50, goal constants at 4 decimals).
-   What holds for every problem of the grammar whose initial fluents have no repeated argument:
+   What holds for every problem of the grammar whose initial fluents are [safe_repeats] (Model/ProblemObs.v: no repeated
+   argument - C05_no_repeats_safe -, or repeated arguments written the way the library prints them, e.g. (f a a),
+   (g a a b), with distinct keys):
      C09_roundtrip           the export parses, the result has the same observables, and a second round too
      C09_empty_sections      empty sections stay empty *)
 From Coq Require Import List String Bool PrimFloat.
 From Verif Require Import Base.Result Base.Str Base.Sexp Base.PyDict Model.Domain Model.NumExpr Model.Problem
   Model.ProblemObs Model.ProblemExporter Spec.Pddl Spec.Grammar Spec.Problem
-  Proofs.C05_Items Proofs.C05_Parse Proofs.C05_Faithful Proofs.C05_Examples Proofs.C05_Main
+  Proofs.C05_Items Proofs.C05_Parse Proofs.C05_Faithful Proofs.C05_Repeats Proofs.C05_Examples Proofs.C05_Main
   Proofs.C09_Export Proofs.C09_Round Proofs.C09_Main Proofs.C09_Examples.
 Import ListNotations.
 Open Scope string_scope.
 
 Theorem C09_roundtrip : forall num repr_text dom, dom_ok dom -> num_ok num -> forall e sp pb,
-  read_problem num e = Some sp -> repr_ok num repr_text sp -> no_repeats sp = true -> sp_name sp <> "" ->
+  read_problem num e = Some sp -> repr_ok num repr_text sp -> safe_repeats sp = true -> sp_name sp <> "" ->
   parse_problem cfg_fixed num dom e = Ok pb ->
   exists pb', parse_problem cfg_fixed num dom (export_problem repr_text None (d_name dom) pb) = Ok pb' /\
               same_obs pb' pb /\
@@ -51,7 +53,7 @@ Proof. exact C09_roundtrip_refuted_lemma. Qed.
 (* the hypotheses of C09_roundtrip are satisfiable by a non-trivial problem (5 numeric values) *)
 Theorem C09_nonvacuous :
   dom_ok ex_dom /\ num_ok ex_num9 /\
-  exists sp, read_problem ex_num9 ex_problem = Some sp /\ repr_ok ex_num9 ex_repr9 sp /\ no_repeats sp = true /\
+  exists sp, read_problem ex_num9 ex_problem = Some sp /\ repr_ok ex_num9 ex_repr9 sp /\ safe_repeats sp = true /\
              sp_name sp <> "" /\ List.length (values_of ex_num9 sp) = 5 /\
              exists pb, parse_problem cfg_fixed ex_num9 ex_dom ex_problem = Ok pb.
 Proof. exact (conj ex_dom_ok (conj ex_num9_ok C09_hypotheses_satisfiable)). Qed.
@@ -64,6 +66,15 @@ Theorem C09_pinned_refuted :
     exists pb2, parse_problem cfg_fixed ex_num9 ex_dom (export_problem ex_repr9 None "dom" pb) = Ok pb2 /\
                 pdump_equiv (dump_problem pb2) (dump_problem pb) = true.
 Proof. exact C09_pinned_exporter_loses_precision. Qed.
+
+(* ... and by a problem with repeated fluent arguments, which round-trips *)
+Theorem C09_nonvacuous_repeats :
+  exists sp pb pb', read_problem ex_num9 repeats_problem = Some sp /\ repr_ok ex_num9 ex_repr9 sp /\
+    safe_repeats sp = true /\ no_repeats sp = false /\
+    parse_problem cfg_fixed ex_num9 ex_dom repeats_problem = Ok pb /\
+    parse_problem cfg_fixed ex_num9 ex_dom (export_problem ex_repr9 None "dom" pb) = Ok pb' /\
+    pdump_equiv (dump_problem pb') (dump_problem pb) = true /\ List.length (pd_fluents (dump_problem pb')) = 4.
+Proof. exact C09_repeats_satisfiable. Qed.
 
 (* a non-trivial problem and the empty problem round-trip (computed on the model) *)
 Theorem C09_example :
@@ -88,6 +99,7 @@ Print Assumptions C09_same_obs_equiv.
 Print Assumptions C09_empty_sections.
 Print Assumptions C09_roundtrip_refuted.
 Print Assumptions C09_nonvacuous.
+Print Assumptions C09_nonvacuous_repeats.
 Print Assumptions C09_pinned_refuted.
 Print Assumptions C09_example.
 Print Assumptions C09_example_empty_thm.
